@@ -526,6 +526,9 @@ func canon(sb *strings.Builder, v any) {
 	case float64:
 		if x == math.Trunc(x) && math.Abs(x) < 1e15 {
 			sb.WriteString(strconv.FormatInt(int64(x), 10))
+		} else if r, ok := new(big.Rat).SetString(strconv.FormatFloat(x, 'g', -1, 64)); ok {
+			// the same exact form as a json.Number with that decimal text
+			sb.WriteString(r.RatString())
 		} else {
 			sb.WriteString(strconv.FormatFloat(x, 'g', -1, 64))
 		}
